@@ -257,7 +257,7 @@ fn to_value(v: &Val) -> jbk::Value {
         Val::S(x) => jbk::Value::Signed(*x),
         Val::A(a) => jbk::Value::Array(a.as_slice().into()),
         Val::C(p, c) => jbk::Value::Content(jbk::ContentAddress::new(jbk::PackId::from(*p), jbk::ContentIdx::from(*c))),
-        Val::Ref(r) => jbk::Value::Unsigned(*r as u64),
+        Val::Ref(r) | Val::RefO(_, r) => jbk::Value::Unsigned(*r as u64),
     }
 }
 
